@@ -1,6 +1,6 @@
 (* C04 -- RTU delivers only CRC-valid frames and emits only CRC-correct frames. *)
 From Coq Require Import Lia.
-From TM Require Import Base Frame Pdu Crc RtuCodec Framed FramedProofs RtuProofs CrcProofs.
+From TM Require Import Base Frame Pdu Crc RtuCodec Framed Client Server FramedProofs RtuProofs CrcProofs Histories Slices SlicesClient.
 
 (* one call of the resynchronising decoder: the buffer is split into the bytes dropped by this call,
    then (if a frame is handed up) exactly slave :: pdu ++ CRC-16/MODBUS(slave :: pdu) low byte first,
@@ -57,4 +57,45 @@ Proof. vm_compute. reflexivity. Qed.
 Example C04_kat2 : calc_crc [0x12; 0x34; 0x23; 0x45; 0x34; 0x56; 0x45; 0x67] = 0xE2DB.
 Proof. vm_compute. reflexivity. Qed.
 Example C04_kat3 : crc_reg [0x31; 0x32; 0x33; 0x34; 0x35; 0x36; 0x37; 0x38; 0x39] = 0x4B37.
+Proof. vm_compute. reflexivity. Qed.
+
+(* ---- the whole stream, not just one decoder call ----
+   [Slices R s is rest]: s = d0 ++ f1 ++ d1 ++ f2 ++ ... ++ fn ++ dn ++ rest with R fk ik for every k: the
+   items are carried by pairwise disjoint contiguous slices of s, in order; the d's are what was dropped.
+   [sdata q]: the bytes a read script delivers (chunk boundaries, pending polls, errors and end-of-stream
+   events of the script are arbitrary). *)
+(* frame layer: ANY bytes, ANY fragmentation, ANY number of calls however each of them ends *)
+Theorem C04_frames_are_disjoint_slices_req : forall n st evs is s e, bytes_ok (rbuf st ++ sdata evs) = true ->
+  n_calls (rtu_frame_dec req_pdu_len) n st evs = (is, s, e) ->
+  Slices rtu_slice (rbuf st ++ sdata evs) is (rbuf s ++ sdata e).
+Proof. exact (n_calls_slices _ _ (rtu_frame_dec_seg req_pdu_len req_pdu_len_nil req_pdu_len_no_panic)). Qed.
+Theorem C04_frames_are_disjoint_slices_rsp : forall n st evs is s e, bytes_ok (rbuf st ++ sdata evs) = true ->
+  n_calls (rtu_frame_dec rsp_pdu_len) n st evs = (is, s, e) ->
+  Slices rtu_slice (rbuf st ++ sdata evs) is (rbuf s ++ sdata e).
+Proof. exact (n_calls_slices _ _ (rtu_frame_dec_seg rsp_pdu_len rsp_pdu_len_nil rsp_pdu_len_no_panic)). Qed.
+(* server: the requests handed to the service over the life of a connection -- any bytes, fragmentation,
+   service behaviour, write behaviour -- are carried by disjoint slices of the received stream, in order *)
+Theorem C04_served_requests_are_disjoint_slices : forall m q wq fq svc, bytes_ok (sdata q) = true ->
+  exists rest, Slices (call_slice RTU) (sdata q) (calls (serve_conn RTU m q wq fq svc)) rest.
+Proof. exact (serve_conn_slices RTU). Qed.
+Theorem C04_served_slice_is_crc_valid : forall f c, call_slice RTU f c ->
+  exists pdu, f = fst c :: pdu ++ crc2 (fst c :: pdu) /\ dec_req pdu = Val (snd c).
+Proof. exact rtu_call_slice. Qed.
+(* client: the replies consumed by the calls of ANY history (completed, failed, mismatching, abandoned calls;
+   slave changes; disconnects) are carried by disjoint slices of the bytes the transport delivered, in order:
+   the per-call clearing of the receive buffer and the drain after an error only drop bytes *)
+Theorem C04_consumed_replies_are_disjoint_slices : forall m ops st, bytes_ok (stream st ++ delivered ops) = true ->
+  Slices (client_slice RTU) (stream st ++ delivered ops) (replies RTU m st ops) (stream (run_ops RTU m st ops)).
+Proof. exact (history_slices RTU). Qed.
+Theorem C04_reply_slice_is_crc_valid : forall f i, client_slice RTU f i ->
+  exists pdu, f = (snd (fst i) :: pdu) ++ crc2 (snd (fst i) :: pdu) /\ dec_rsp_pdu pdu = Val (snd i).
+Proof. exact rtu_reply_is_crc_valid_slice. Qed.
+
+(* non-vacuity: noise, a frame, a damaged copy of it, another frame -- two requests reach the service *)
+Example C04_slices_example :
+  let f1 := rtu_frame 0x11 [0x03; 0x00; 0x6B; 0x00; 0x03] in
+  let f2 := rtu_frame 0x11 [0x06; 0x00; 0x01; 0x00; 0x03] in
+  let damaged := 0x11 :: 0x03 :: 0x00 :: 0x6B :: 0x00 :: 0x02 :: crc2 (0x11 :: [0x03; 0x00; 0x6B; 0x00; 0x03]) in
+  calls (serve_conn RTU debug_mode [RData ([0xFE; 0xFD] ++ f1 ++ damaged); RPend; RData f2] [] [] [SDecline; SDecline])
+  = [(0x11, ReqReadHoldingRegisters 0x6B 3); (0x11, ReqWriteSingleRegister 1 3)].
 Proof. vm_compute. reflexivity. Qed.
